@@ -53,6 +53,13 @@ pub fn script(incoming: &[u8], vectored: bool) -> Shared {
 }
 
 impl Script {
+    /// Record a call; bounded, so that library code spinning on this stream cannot exhaust memory
+    /// before the execution watchdog reports it.
+    fn rec(&mut self, c: Call) {
+        if self.calls.len() < 200_000 {
+            self.calls.push(c);
+        }
+    }
     fn next(&mut self) -> Option<Ans> {
         self.answers.pop_front()
     }
@@ -60,15 +67,15 @@ impl Script {
         let a = self.next().unwrap_or(Ans::Read(usize::MAX));
         match a {
             Ans::Pending => {
-                self.calls.push(Call::Pending("read"));
+                self.rec(Call::Pending("read"));
                 Poll::Pending
             }
             Ans::Err(k) => {
-                self.calls.push(Call::Err("read"));
+                self.rec(Call::Err("read"));
                 Poll::Ready(Err(io::Error::from(k)))
             }
             Ans::ReadEof => {
-                self.calls.push(Call::Read { cap, gave: 0 });
+                self.rec(Call::Read { cap, gave: 0 });
                 self.cursor = self.incoming.len(); // the far side is gone; nothing more will come
                 Poll::Ready(Ok(()))
             }
@@ -77,7 +84,7 @@ impl Script {
                 let m = n.min(cap).min(avail);
                 put(&self.incoming[self.cursor..self.cursor + m]);
                 self.cursor += m;
-                self.calls.push(Call::Read { cap, gave: m });
+                self.rec(Call::Read { cap, gave: m });
                 Poll::Ready(Ok(()))
             }
             other => panic!("script: answer {other:?} given to a read"),
@@ -87,11 +94,11 @@ impl Script {
         let a = self.next().unwrap_or(Ans::Accept(usize::MAX));
         match a {
             Ans::Pending => {
-                self.calls.push(Call::Pending("write"));
+                self.rec(Call::Pending("write"));
                 Poll::Pending
             }
             Ans::Err(k) => {
-                self.calls.push(Call::Err("write"));
+                self.rec(Call::Err("write"));
                 Poll::Ready(Err(io::Error::from(k)))
             }
             Ans::Accept(n) => {
@@ -99,9 +106,9 @@ impl Script {
                 let m = n.min(all.len());
                 self.received.extend_from_slice(&all[..m]);
                 if vectored_call {
-                    self.calls.push(Call::WriteVectored { offered: bufs.iter().map(|b| b.to_vec()).collect(), took: m });
+                    self.rec(Call::WriteVectored { offered: bufs.iter().map(|b| b.to_vec()).collect(), took: m });
                 } else {
-                    self.calls.push(Call::Write { offered: all, took: m });
+                    self.rec(Call::Write { offered: all, took: m });
                 }
                 Poll::Ready(Ok(m))
             }
@@ -112,15 +119,15 @@ impl Script {
         let a = self.next().unwrap_or(Ans::Ok);
         match a {
             Ans::Pending => {
-                self.calls.push(Call::Pending(what));
+                self.rec(Call::Pending(what));
                 Poll::Pending
             }
             Ans::Err(k) => {
-                self.calls.push(Call::Err(what));
+                self.rec(Call::Err(what));
                 Poll::Ready(Err(io::Error::from(k)))
             }
             Ans::Ok => {
-                self.calls.push(if what == "flush" { Call::Flush } else { Call::Shutdown });
+                self.rec(if what == "flush" { Call::Flush } else { Call::Shutdown });
                 Poll::Ready(Ok(()))
             }
             other => panic!("script: answer {other:?} given to {what}"),
